@@ -622,9 +622,9 @@ Proof.
   - destruct (c01_chunks_wf _ _ Hcs) as [Hwf Hd].
     assert (Hc64 : ct < two64) by (unfold custom_type_max, two64 in *; lia).
     exists (enc_custom_begin ct ++ enc_chunks (map merge cs)). split; [|split].
-    + apply encodes_custom_begin; [reflexivity | exact Hc64 | exact Hwf | exact Hd].
+    + apply encodes_custom_begin; [reflexivity | discriminate | exact Hc64 | exact Hwf | exact Hd].
     + rewrite chunk_events_raw. rewrite <- (map_merge_unmerge (map merge cs)) at 2.
-      apply encodes_custom_begin; [reflexivity | exact Hc64 | rewrite map_merge_unmerge; exact Hwf|].
+      apply encodes_custom_begin; [reflexivity | discriminate | exact Hc64 | rewrite map_merge_unmerge; exact Hwf|].
       apply unmerge_data_wf. apply merged_data_wf. exact Hd.
     + right. split; [unfold enc_custom_begin; discriminate | apply tok_custom; assumption].
 Qed.
@@ -876,35 +876,30 @@ Definition den_roundtrip_full : Prop :=
   forall es doc, cbe_encode es = Some doc ->
     exists es', cbe_decode default_dcfg doc = (es', DOk) /\ den es' = no_comments (den es).
 
-(* custom text delivered through the chunked API is silently written as custom binary *)
-Definition chunked_custom_text_doc : list event :=
-  [EBeginDoc; EVersion 0; ECustomBegin cbeAT_CustomText 3; EArrayChunk 2 false; EArrayData [97; 98]; EEndDoc].
-
-Lemma chunked_custom_text_changes :
-  cbe_encode chunked_custom_text_doc = Some [129; 0; 146; 3; 4; 97; 98] /\
-  cbe_decode default_dcfg [129; 0; 146; 3; 4; 97; 98] =
-    ([EBeginDoc; EVersion 0; ECustomBegin cbeAT_CustomBinary 3; EArrayChunk 2 false; EArrayData [97; 98]; EEndDoc], DOk) /\
-  den chunked_custom_text_doc = [DBeginDoc; DVersion 0; DCustom true 3 [97; 98]; DEndDoc] /\
-  den (fst (cbe_decode default_dcfg [129; 0; 146; 3; 4; 97; 98])) = [DBeginDoc; DVersion 0; DCustom false 3 [97; 98]; DEndDoc].
-Proof. vm_compute. repeat split. Qed.
+(* an apd exponent of MinInt32 is written as a field the decoder rejects (see also C22) *)
+Lemma bigdecimal_expmin_not_decodable :
+  cbe_encode bigdecimal_expmin_doc = Some [129; 0; 118; 130; 128; 128; 128; 224; 255; 255; 255; 255; 1; 7] /\
+  snd (cbe_decode default_dcfg [129; 0; 118; 130; 128; 128; 128; 224; 255; 255; 255; 255; 1; 7]) = DErr.
+Proof. exact reencode_bigdecimal_expmin. Qed.
 
 Theorem den_roundtrip_full_refuted : ~ den_roundtrip_full.
 Proof.
-  intro H. destruct chunked_custom_text_changes as (E1 & E2 & E3 & E4).
-  destruct (H _ _ E1) as (es' & D1 & D2). rewrite E2 in D1. injection D1 as <-.
-  rewrite E3 in D2. rewrite E2 in E4. cbn [fst] in E4. rewrite E4 in D2. discriminate.
+  intro H. destruct bigdecimal_expmin_not_decodable as (E1 & E2).
+  destruct (H _ _ E1) as (es' & D1 & _). rewrite D1 in E2. discriminate.
 Qed.
+
+(* custom text through the chunked API is refused like custom text in one event *)
+Definition chunked_custom_text_doc : list event :=
+  [EBeginDoc; EVersion 0; ECustomBegin cbeAT_CustomText 3; EArrayChunk 2 false; EArrayData [97; 98]; EEndDoc].
+
+Lemma chunked_custom_text_refused : cbe_encode chunked_custom_text_doc = None.
+Proof. reflexivity. Qed.
 
 (* custom text in one event is refused by the encoder altogether *)
 Lemma whole_custom_text_refused :
   cbe_encode [EBeginDoc; EVersion 0; ECustomText 3 [97; 98]; EEndDoc] = None.
 Proof. reflexivity. Qed.
 
-(* an apd exponent of MinInt32 is written as a field the decoder rejects (see also C22) *)
-Lemma bigdecimal_expmin_not_decodable :
-  cbe_encode bigdecimal_expmin_doc = Some [129; 0; 118; 130; 128; 128; 128; 224; 255; 255; 255; 255; 1; 7] /\
-  snd (cbe_decode default_dcfg [129; 0; 118; 130; 128; 128; 128; 224; 255; 255; 255; 255; 1; 7]) = DErr.
-Proof. exact reencode_bigdecimal_expmin. Qed.
 
 (* ------------------------------------------------------------------ *)
 (** * 9. Example (non-vacuity) *)
@@ -1406,22 +1401,6 @@ Definition C01_full : Prop :=
     exists es', cbe_decode default_dcfg doc = (es', DOk) /\
                 accepts_document default_rcfg es' = true /\ den es' = no_comments (den es).
 
-Lemma chunked_custom_text_accepted : accepts_document default_rcfg chunked_custom_text_doc = true.
-Proof. vm_compute. reflexivity. Qed.
-
-Theorem C01_full_refuted : ~ C01_full.
-Proof.
-  intro H. destruct chunked_custom_text_changes as (E1 & E2 & E3 & E4).
-  destruct (H _ _ chunked_custom_text_accepted E1) as (es' & D1 & _ & D2). rewrite E2 in D1. injection D1 as <-.
-  rewrite E3 in D2. rewrite E2 in E4. cbn [fst] in E4. rewrite E4 in D2. discriminate.
-Qed.
-
-(* a rules-valid stream the encoder refuses *)
-Lemma whole_custom_text_valid_but_refused :
-  accepts_document default_rcfg [EBeginDoc; EVersion 0; ECustomText 3 [97; 98]; EEndDoc] = true /\
-  cbe_encode [EBeginDoc; EVersion 0; ECustomText 3 [97; 98]; EEndDoc] = None.
-Proof. vm_compute. split; reflexivity. Qed.
-
 (* a rules-valid stream whose document the decoder rejects *)
 Lemma bigdecimal_expmin_valid_but_lost :
   accepts_document default_rcfg bigdecimal_expmin_doc = true /\
@@ -1429,6 +1408,21 @@ Lemma bigdecimal_expmin_valid_but_lost :
 Proof.
   split; [vm_compute; reflexivity|]. eexists. exact bigdecimal_expmin_not_decodable.
 Qed.
+
+Theorem C01_full_refuted : ~ C01_full.
+Proof.
+  intro H. destruct bigdecimal_expmin_valid_but_lost as (A & doc & E1 & E2).
+  destruct (H _ _ A E1) as (es' & D1 & _). rewrite D1 in E2. discriminate.
+Qed.
+
+(* custom text, in one event or through the chunked API, is rules-valid and refused by the
+   encoder (an error, not a silent change of kind): it is outside what CBE carries *)
+Lemma custom_text_valid_but_refused :
+  accepts_document default_rcfg [EBeginDoc; EVersion 0; ECustomText 3 [97; 98]; EEndDoc] = true /\
+  cbe_encode [EBeginDoc; EVersion 0; ECustomText 3 [97; 98]; EEndDoc] = None /\
+  accepts_document default_rcfg chunked_custom_text_doc = true /\
+  cbe_encode chunked_custom_text_doc = None.
+Proof. vm_compute. repeat split. Qed.
 
 (* non-vacuity of the sub-fragment theorem *)
 Definition c01r_example : list event :=
